@@ -49,7 +49,7 @@ func sizeStores(c *Ctx, field string) []fieldStore {
 			if al, ok := resolve1(fa.X).(*ssa.Alloc); ok && al.Comment == "complit" {
 				return // constructor literal
 			}
-			out = append(out, fieldStore{st, f, pathOf(fa.X), isFieldLoad(fa.X, "DB", "ActiveFile")})
+			out = append(out, fieldStore{st, f, pathOf(fa.X), isFieldLoad(fa.X, "DB", "ActiveFile") || paramBoundToField(c, fa.X, "DB", "ActiveFile")})
 		})
 	}
 	return out
